@@ -50,10 +50,14 @@ Init ==
   /\ st = St0 /\ phase = "new" /\ closed = FALSE /\ unsub = FALSE /\ log = <<>> /\ h = <<>>
   /\ sent = [s \in 1..MaxK |-> 0]
   /\ psrc \in {x \in PanicSrcs : x <= m.k}
-  /\ sync \in {x \in SyncEnds : x.s <= m.k}
+  /\ sync \in {x \in SyncEnds : x.s <= m.k /\ (x.k = "V" => (x.s >= 2 /\ m.op \in {"Merge", "CombineLatest", "Zip", "Race"}))}
   /\ tail \in (IF m.op \in {"WindowWhen", "GroupBy", "GroupByLeave"} THEN {"none"} ELSE Tails)
 
-SyncNotif == IF sync.k = "E" THEN E(sync.s, SubCtx \cup {TMark(sync.s)}) ELSE C(SubCtx \cup {TMark(sync.s)})
+\* k = "V": while source sync.s is being subscribed, the FIRST source (already subscribed: these operators subscribe in order) emits its first value
+SyncFrom == IF sync.k = "V" THEN 1 ELSE sync.s
+SyncNotif == CASE sync.k = "E" -> E(sync.s, SubCtx \cup {TMark(sync.s)})
+               [] sync.k = "V" -> N(10, SubCtx \cup {Mark(1, 0)})
+               [] OTHER -> C(SubCtx \cup {TMark(sync.s)})
 
 \* the downstream stage sees the outputs of one arrival; when it terminates the stream every source still live is released at once
 Cut(a) ==
@@ -79,13 +83,14 @@ Subscribe ==
             /\ h' = Append(h, [do |-> "sub", src |-> sync.s, n |-> C({}), exp |-> Obs(SubOutF(m), TRUE, s3)])
        ELSE \* the terminal of the synchronous source is processed with every source subscribed (a source the operator no longer needs
             \* may also never be subscribed at all - the replayer accepts both; what it never accepts is a source left subscribed)
-            LET a == Cut(ArriveF(m, s2, FALSE, sync.s, SyncNotif)) IN
+            LET a == Cut(ArriveF(m, s2, FALSE, SyncFrom, SyncNotif)) IN
             /\ st' = a.st
             /\ log' = log \o SubOutF(m) \o a.out
             /\ closed' = a.closed
             /\ h' = Append(h, [do |-> "sub", src |-> sync.s, n |-> SyncNotif, exp |-> Obs(SubOutF(m) \o a.out, a.closed, a.st)])
   /\ phase' = "run"
-  /\ UNCHANGED <<m, unsub, sent, psrc, sync, tail>>
+  /\ sent' = IF sync.k = "V" THEN [sent EXCEPT ![1] = 1] ELSE sent
+  /\ UNCHANGED <<m, unsub, psrc, sync, tail>>
 
 Push(s, n) ==
   /\ phase = "run" /\ Len(h) <= MaxSteps /\ s \in Srcs
